@@ -307,6 +307,7 @@ func NewEntryChain(r *rand.Rand, st *Store, n int, proto cidlink.LinkPrototype) 
 // Fault describes what the front does to one request instead of (or in addition to) serving it.
 type Fault struct {
 	Status   int                       // respond with this status instead
+	Redirect string                    // respond 302 with this resource (same directory) as Location
 	Body     []byte                    // respond 200 with exactly this body
 	Mutate   func(orig []byte) []byte  // respond 200 with a mutated body
 	Truncate int                       // >0: announce full Content-Length, write only this many bytes, close
@@ -543,6 +544,11 @@ func (f *Front) ServeHTTP(w http.ResponseWriter, r *http.Request) {
 					conn.Close()
 				}
 			}
+			return
+		}
+		if fault.Redirect != "" {
+			f.setStatus(ev, http.StatusFound)
+			http.Redirect(w, r, path.Join(path.Dir(r.URL.Path), fault.Redirect), http.StatusFound)
 			return
 		}
 		if fault.Status != 0 {
